@@ -270,21 +270,28 @@ func runCheck(repo, verif, prop, tier string, secs int, keep bool, evOut string)
 				"status": o.Status, "solver": o.Solver, "solver_output": firstLines(o.Output, 20), "model": o.Model,
 			}
 			suffix := " no-failing-input-found"
+			lastReplaySrc = ""
 			if o.Model != nil {
 				if ok, out := replayModel(L, verif, r, o); ok {
 					rec["replay_output"] = out
+					rec["replay_test_go"] = lastReplaySrc
 					suffix = ""
 				} else {
 					rec["replay_output"] = out
 				}
 			}
 			if suffix != "" {
+				lastReplaySrc = ""
 				if ok, out := boundedSearch(L, verif, r, o); ok {
 					rec["bounded_search_output"] = out
+					rec["replay_test_go"] = lastReplaySrc
 					suffix = ""
 				} else if out != "" {
 					rec["bounded_search_output"] = out
 				}
+			}
+			if suffix == "" {
+				rec["how_to_replay"] = "./check --replay <this file>: the in-package test in replay_test_go is injected into /repo with `go test -overlay` (nothing is written to /repo) together with the spec oracle; it calls the function under contract on the failing input and evaluates the violated clause"
 			}
 			rp := writeReplay(verif, prop, o.Name, rec)
 			fmt.Printf("FAILED obligation=%s status=%s at %s: %s\n", o.Name, o.Status, o.Pos, o.Desc)
